@@ -824,3 +824,37 @@ def range_of(t):
         d = dict(t[2])
         return d.get("start"), d.get("end")
     return None
+
+
+def elementwise_sequence(E, val):
+    """`val` is a sequence built element by element, in order, from ONE source sequence S:
+         S.iter().map(closure).collect()                      -> (S, value of the closure, its element symbol)
+         let mut v = Vec::new(); for x in S { v.push(e) }; v  -> (S, e, elem(S))
+       exactly one value per element, no early exit; otherwise None."""
+    a = is_call(val, "collect", 1)
+    if a is not None:
+        m = is_call(a[0], "map", 2)
+        if m is not None and isinstance(m[1], tuple) and m[1] and m[1][0] == "closure":
+            S = E.loop_summaries.get("cl%s" % m[1][1])
+            if S is None:
+                return None
+            live = [p for p in S["paths"] if p.exit is None]
+            if len(live) != 1 or len(live) != len(S["paths"]) or live[0].eff:
+                return None
+            return m[0], live[0].val, ("elem", m[0], "cl%s" % m[1][1])
+        return None
+    if isinstance(val, tuple) and len(val) == 4 and val[0] == "loopout":
+        name, lid, entry = val[1], val[2], val[3]
+        if not (is_call(entry, "new", 0) is not None or is_call(entry, "with_capacity", 1) is not None or entry == ("vec", ())):
+            return None
+        S = E.loop_summaries.get(lid)
+        if S is None or S.get("kind") != "for":
+            return None
+        paths = S["paths"]
+        if len(paths) != 1 or paths[0].exit is not None or paths[0].pc:
+            return None
+        eff = [e for e in paths[0].eff]
+        if len(eff) != 1 or eff[0][0] != "push" or eff[0][1] != ("local", name):
+            return None
+        return S["iter"], eff[0][2], ("elem", S["iter"], lid)
+    return None
